@@ -38,6 +38,31 @@ Proof. by move=> hP; rewrite /sym !trmx_mul trmxK hP mulmxA. Qed.
 Lemma sym_add n (A B : 'M[F]_n) : sym A -> sym B -> sym (A + B).
 Proof. by move=> hA hB; rewrite /sym linearD /= hA hB. Qed.
 
+(** symmetrisation (A + A^T)/2: always symmetric, the identity on symmetric matrices, preserves the quadratic form *)
+Definition symz n (A : 'M[F]_n) : 'M[F]_n := 2%:R^-1 *: (A + A^T).
+
+Lemma symz_sym n (A : 'M[F]_n) : sym (symz A).
+Proof. by rewrite /sym /symz linearZ /= linearD /= trmxK addrC. Qed.
+
+Lemma symz_id n (A : 'M[F]_n) : sym A -> symz A = A.
+Proof.
+move=> sA; rewrite /symz sA -mulr2n -scaler_nat scalerA mulVf ?scale1r //.
+by rewrite pnatr_eq0.
+Qed.
+
+Lemma qf_symz n (A : 'M[F]_n) x : qf (symz A) x = qf A x.
+Proof.
+rewrite /qf /symz -scalemxAr -scalemxAl mxE mulmxDr mulmxDl mxE.
+have -> : (x^T *m A^T *m x) 0 0 = (x^T *m A *m x) 0 0.
+  have -> : x^T *m A^T *m x = (x^T *m A *m x)^T by rewrite !trmx_mul trmxK mulmxA.
+  by rewrite mxE.
+set q := (_ *m A *m _) 0 0.
+by rewrite -mulr2n -[q *+ 2]mulr_natr mulrCA mulVf ?mulr1 // pnatr_eq0.
+Qed.
+
+Lemma psd_symz n (A : 'M[F]_n) : psd A -> psd (symz A).
+Proof. by move=> hA x; rewrite qf_symz. Qed.
+
 Lemma psd0 n : psd (0 : 'M[F]_n).
 Proof. by move=> x; rewrite /qf mulmx0 mul0mx mxE. Qed.
 
